@@ -281,10 +281,12 @@ func (node *Node) ProcessBlock(ctx context.Context, block wire.Block) error {
 		// Remove from unconfirmed. Only matching are in unconfirmed.
 		inUnconfirmed, unconfirmed = removeHash(*txid, unconfirmed)
 
-		// Remove from mempool
+		// Check the mempool. The tx is only removed from the mempool after the block is processed,
+		// otherwise a peer that also announced it is asked for it again while the block is being
+		// processed.
 		inMemPool := false
 		if node.state.IsReady() {
-			inMemPool = node.memPool.RemoveTransaction(*txid)
+			inMemPool = node.memPool.TransactionExists(txid)
 		}
 
 		// Check for transactions in the mempool with conflicting inputs (double spends). This applies
@@ -448,6 +450,12 @@ func (node *Node) ProcessBlock(ctx context.Context, block wire.Block) error {
 		logger.Warn(ctx, "Failed clean up after block : %s", hash)
 		node.txs.ReleaseUnconfirmed(ctx) // Release unconfirmed
 		return err
+	}
+
+	if node.state.IsReady() {
+		for _, txid := range txids {
+			node.memPool.RemoveTransaction(*txid)
+		}
 	}
 
 	if !node.state.IsReady() {
